@@ -585,6 +585,33 @@ def gen_C20(tier, seed):
                     if proc == 1:
                         p.next_proc()
                 progs.append(p.build())
+    # a rejected call in one logical file naming a set that another logical file uses (known finding K04: the parent set of a
+    # rejected call stays registered in the logical file, the write is then refused as "set shared by logical files")
+    for i, (cls, raw) in enumerate([('zone', {'description': I(5)}), ('axis', {'axis_id': I(5)}), ('equipment', {'serial_number': I(7)}),
+                                    ('comment', {'text': I(3)}), ('tool', {'description': I(5)})]):
+        p = Prog(f'C20-rejected-otherlf-{i}', {'kind': 'rejected', 'variant': 'set-of-other-lf', 'cls': cls, 'cmpproj': True})
+        for proc in (1, 2):
+            fid = proc
+            p.file(fid, vrl=512)
+            lfs = []
+            for k in range(2):
+                lf = p.lf(fid, lf=10 * proc + k, fh_id=f'LF-{k}', fh_seq=k + 1)
+                sn = f'SET-{k}'
+                p.origin(lf, name=f'O{k}', fsn=k + 1, set_name=sn)
+                c = p.channel(lf, f'CH{k}', data=np.arange(3, dtype='float64'), set_name=sn)
+                p.frame(lf, f'FR{k}', [c], set_name=sn)
+                lfs.append(lf)
+            order = [0, 1] if i % 2 else [1, 0]
+            for which in order:
+                if which == 0:
+                    if proc == 1:     # rejected: logical file 0, default set of the class
+                        p.steps.append({'op': 'add', 'lf': lfs[0], 'cls': cls, 'ref': p.ref('x'), 'name': 'REJECTED', 'kw': {}, 'rawkw': raw})
+                else:                 # accepted: logical file 1, the same (default) set name
+                    p.add(lfs[1], cls, 'ACCEPTED')
+            p.write(fid, fname=f'out{proc}.dlis')
+            if proc == 1:
+                p.next_proc()
+        progs.append(p.build())
     # a rejected add_channel that carried data must not leave the data behind
     for i, (bad, how) in enumerate([(b, h) for b in ({'units': I(5)}, {'axis': 'WRONGREF'}, 'CAST', {'dimension': L(F(1.5))}) for h in ('struct', 'missing', 'h5')]):
         p = Prog(f'C20-chdata-{i}', {'kind': 'rejected', 'cls': 'channel', 'pos': 'data-' + how, 'cmpproj': True})
